@@ -334,9 +334,10 @@ type Handle struct {
 	mu        sync.Mutex
 	getCalls  int
 	waiters   []chan struct{}
-	// FailSendAfter >=0 makes Send fail (simulated crash/IO error) after that many messages of
-	// a call were appended.
 	Sent int
+	// Hook is called around every appended message of Send and around GetMessages of THIS
+	// handle (crash points / scheduling points of one node).
+	Hook func(op, phase string)
 }
 
 var _ storage.Storage = (*Handle)(nil)
@@ -350,10 +351,16 @@ func (h *Handle) Send(msgs ...storage.Message) error {
 		if h.b.Hook != nil {
 			h.b.Hook("send", "pre")
 		}
+		if h.Hook != nil {
+			h.Hook("send", "pre")
+		}
 		msgs[i] = h.b.appendMsg(m)
 		h.Sent++
 		if h.b.Hook != nil {
 			h.b.Hook("send", "post")
+		}
+		if h.Hook != nil {
+			h.Hook("send", "post")
 		}
 	}
 	return nil
@@ -362,6 +369,9 @@ func (h *Handle) Send(msgs ...storage.Message) error {
 func (h *Handle) GetMessages(offset uint64) ([]storage.Message, error) {
 	if h.b.Hook != nil {
 		h.b.Hook("getmessages", "pre")
+	}
+	if h.Hook != nil {
+		h.Hook("getmessages", "pre")
 	}
 	h.b.mu.Lock()
 	end := len(h.b.log)
@@ -418,6 +428,25 @@ func (h *Handle) WaitGetCalls(n int) {
 		h.waiters = append(h.waiters, w)
 		h.mu.Unlock()
 		<-w
+	}
+}
+
+// WaitGetCallsOr is WaitGetCalls that gives up (false) when abort is closed.
+func (h *Handle) WaitGetCallsOr(n int, abort <-chan struct{}) bool {
+	for {
+		h.mu.Lock()
+		if h.getCalls >= n {
+			h.mu.Unlock()
+			return true
+		}
+		w := make(chan struct{})
+		h.waiters = append(h.waiters, w)
+		h.mu.Unlock()
+		select {
+		case <-w:
+		case <-abort:
+			return false
+		}
 	}
 }
 
